@@ -726,6 +726,11 @@ Definition attr_find (members : list (list Z * list Z * Z)) (name : list Z) : op
   | None => None
   end.
 
+(** the attributes of a Vdata are one list of (owner, tag, ref) in the order they were set; owner = -1 the Vdata
+    itself, else the index of a field.  Attribute number [k] of owner [f] is the k-th entry of that owner *)
+Definition vsattr_nth (alist : list vattr) (findex k : Z) : option vattr :=
+  if k <? 0 then None else nth_error (filter (fun e => va_findex e =? findex) alist) (Z.to_nat k).
+
 (* ---- well-formedness, declarative form ------------------------------------------------------------ *)
 (** the DD-block chain starting at [off]: every block parses, each names the next, the last names 0 *)
 Inductive chain (img : image) : Z -> list ddblock -> Prop :=
